@@ -6,13 +6,62 @@ var dirs3 = []string{"restart", "stop", "resume"}
 
 // Generate draws a random scenario: an actor tree of 2..6 tokens (token 0 = root, spawned externally),
 // one role per token, and a list of external actions.
+// template scenarios aimed at situations that uniform generation reaches rarely
+func template(r *vh.RNG) *Scenario {
+	scn := &Scenario{Mailbox: "LockFree", Final: r.Bool(), Sentinel: -1}
+	if r.Bool() {
+		scn.Mailbox = "GlobalOrderedLockFree"
+	}
+	tell := func(t, n int) Label { return Label{K: "tell", T: t, N: n} }
+	switch r.Intn(3) {
+	case 0:
+		// all-for-one: the root restarts ALL its children when A (token 1) fails; B (token 2) is healthy, has a child
+		// (token 3) and traffic in flight while it waits for that child during its restart
+		scn.Roles = []Role{
+			{Victim: "resume", Sup: []string{"restartall"}, Rules: []Rule{{On: "L", N: -1, Inst: -1, Do: []Action{{K: "spawn", T: 1, R: 1}, {K: "spawn", T: 2, R: 2}}}}},
+			{Rules: []Rule{{On: "P", N: 0, Inst: 0, Do: []Action{{K: "panic"}}}}},
+			{Rules: []Rule{{On: "L", N: -1, Inst: -1, Do: []Action{{K: "spawn", T: 3, R: 3}}}, {On: "P", N: 1, Inst: -1, Do: []Action{{K: "tell", T: 3, N: 2}}}}},
+			{Victim: "resume"},
+		}
+		scn.Exts = []Label{{K: "spawn", T: 0, R: 0}, tell(2, 1), tell(2, 2), tell(1, 0), tell(2, 1), tell(2, 3), tell(3, 1), tell(2, 2), tell(1, 1)}
+	case 1:
+		// a terminate request racing with the restart of an actor that waits for its child
+		scn.Roles = []Role{
+			{Victim: "resume", Sup: []string{"restart"}, Rules: []Rule{{On: "L", N: -1, Inst: -1, Do: []Action{{K: "spawn", T: 1, R: 1}}}}},
+			{Rules: []Rule{{On: "L", N: -1, Inst: -1, Do: []Action{{K: "spawn", T: 2, R: 2}}}, {On: "P", N: 0, Inst: 0, Do: []Action{{K: "panic"}}}}},
+			{Victim: "resume"},
+		}
+		scn.Exts = []Label{{K: "spawn", T: 0, R: 0}, tell(1, 1), tell(1, 0), tell(1, 2), {K: "term", T: 1, G: r.Bool()}, tell(1, 3), tell(2, 1)}
+	default:
+		// watch requests racing with a termination: two observers, one of them the parent
+		scn.Roles = []Role{
+			{Victim: "resume", Sup: []string{"stop"}, Rules: []Rule{{On: "L", N: -1, Inst: -1, Do: []Action{{K: "spawn", T: 1, R: 1}, {K: "spawn", T: 2, R: 2}}},
+				{On: "P", N: 0, Inst: -1, Do: []Action{{K: "term", T: 1, G: false}, {K: "watch", T: 1}}}, {On: "P", N: 1, Inst: -1, Do: []Action{{K: "watch", T: 1}}}}},
+			{Victim: "resume", Rules: []Rule{{On: "L", N: -1, Inst: -1, Do: []Action{{K: "spawn", T: 3, R: 3}}}}},
+			{Victim: "resume", Rules: []Rule{{On: "P", N: 0, Inst: -1, Do: []Action{{K: "watch", T: 1}}}, {On: "P", N: 1, Inst: -1, Do: []Action{{K: "unwatch", T: 1}, {K: "watch", T: 1}}}}},
+			{Victim: "resume"},
+		}
+		scn.Exts = []Label{{K: "spawn", T: 0, R: 0}, tell(2, 0), tell(0, 1), tell(0, 0), tell(2, 1), tell(2, 0), tell(1, 1)}
+	}
+	// shuffle the externals after the first (spawn of the root) a little: swap neighbours at random
+	for i := 2; i+1 < len(scn.Exts); i++ {
+		if r.Chance(1, 3) {
+			scn.Exts[i], scn.Exts[i+1] = scn.Exts[i+1], scn.Exts[i]
+		}
+	}
+	return scn
+}
+
 func Generate(r *vh.RNG) *Scenario {
+	if r.Chance(1, 6) {
+		return template(r)
+	}
 	n := r.Range(2, 6)
 	parent := make([]int, n)
 	for t := 1; t < n; t++ {
 		parent[t] = r.Intn(t)
 	}
-	scn := &Scenario{Mailbox: "LockFree", Final: r.Bool()}
+	scn := &Scenario{Mailbox: "LockFree", Final: r.Bool(), Sentinel: -1}
 	if r.Chance(1, 3) {
 		scn.Mailbox = "GlobalOrderedLockFree"
 	}
@@ -23,6 +72,10 @@ func Generate(r *vh.RNG) *Scenario {
 		return r.Intn(n)
 	}
 	lifePanic := r.Chance(1, 8) // only some scenarios script a failing lifecycle handler
+	calm := r.Chance(1, 4)      // no failures, every termination graceful: exercises "graceful terminate drains the queue"
+	if calm {
+		lifePanic = false
+	}
 	hasSup := make([]bool, n)
 	scn.Roles = make([]Role, n)
 	for t := 0; t < n; t++ {
@@ -38,6 +91,8 @@ func Generate(r *vh.RNG) *Scenario {
 			for i := 0; i < k; i++ {
 				if t != 0 && hasSup[parent[t]] && r.Chance(1, 5) {
 					role.Sup = append(role.Sup, "escalate")
+				} else if r.Chance(1, 6) {
+					role.Sup = append(role.Sup, "restartall")
 				} else {
 					role.Sup = append(role.Sup, dirs3[r.Intn(3)])
 				}
@@ -130,7 +185,33 @@ func Generate(r *vh.RNG) *Scenario {
 			}
 		}
 	}
+	if calm {
+		scn.Final = true
+		for i := range scn.Roles {
+			for j := range scn.Roles[i].Rules {
+				var keep []Action
+				for _, a := range scn.Roles[i].Rules[j].Do {
+					if a.K == "panic" || a.K == "report" {
+						continue
+					}
+					if a.K == "term" {
+						a.G = true
+					}
+					keep = append(keep, a)
+				}
+				scn.Roles[i].Rules[j].Do = keep
+			}
+		}
+	}
 	scn.Exts = append(scn.Exts, Label{K: "spawn", T: 0, R: 0})
+	if r.Chance(1, 2) {
+		// sentinel: token n+2, role index n (appended), spawned right after the root, watches a random token
+		scn.Sentinel, scn.SentinelWatches = n+2, r.Intn(n+1)
+		scn.Roles = append(scn.Roles, Role{Victim: "resume", Rules: []Rule{{On: "L", N: -1, Inst: -1, Do: []Action{{K: "watch", T: scn.SentinelWatches}}}}})
+		pos := 1 + r.Intn(3)
+		_ = pos
+		scn.Exts = append(scn.Exts, Label{K: "spawn", T: n + 2, R: n})
+	}
 	k := r.Range(4, 14)
 	for i := 0; i < k; i++ {
 		switch r.Intn(10) {
@@ -139,9 +220,27 @@ func Generate(r *vh.RNG) *Scenario {
 		case 5, 6:
 			scn.Exts = append(scn.Exts, Label{K: "ask", T: anyTok(), N: r.Intn(4)})
 		case 7, 8:
-			scn.Exts = append(scn.Exts, Label{K: "term", T: anyTok(), G: r.Bool()})
+			scn.Exts = append(scn.Exts, Label{K: "term", T: anyTok(), G: calm || r.Bool()})
 		case 9:
-			scn.Exts = append(scn.Exts, Label{K: "spawn", T: 0, R: 0})
+			if calm {
+		scn.Final = true
+		for i := range scn.Roles {
+			for j := range scn.Roles[i].Rules {
+				var keep []Action
+				for _, a := range scn.Roles[i].Rules[j].Do {
+					if a.K == "panic" || a.K == "report" {
+						continue
+					}
+					if a.K == "term" {
+						a.G = true
+					}
+					keep = append(keep, a)
+				}
+				scn.Roles[i].Rules[j].Do = keep
+			}
+		}
+	}
+	scn.Exts = append(scn.Exts, Label{K: "spawn", T: 0, R: 0})
 		}
 	}
 	return scn
